@@ -103,8 +103,9 @@ def ops_of(t):
 def history_case(g, n_instr, probe_docs):
     r = g.r
     instrs = []      # ("leaf", tree-leaf-recipe) | ("comb", op, ia, ib, via)
-    kind = r.choice(["value", "value", "value+key", "value+index", "key", "index", "key+index"])
-    n_leaves = r.choice([2, 3, 3, 4])
+    kind = r.choice(["value", "value", "value+key", "value+index", "key", "index", "key+index",
+                     "value+key+index", "value+value+key+index"])
+    n_leaves = r.choice([2, 3, 3, 4, 5])
     for _ in range(n_leaves):
         if r.random() < 0.25:
             instrs.append(("leaf", ("null",)))
@@ -118,6 +119,26 @@ def history_case(g, n_instr, probe_docs):
         ib = r.randrange(len(instrs))
         instrs.append(("comb", op, ia, ib, r.choice(["operator", "class"])))
     return run_history(instrs, probe_docs)
+
+
+def kinds_of(obj):
+    """'key' / 'index' / 'value' kinds among the leaves of a condition object (through `children`, no cache)"""
+    out = set()
+    stack = [obj]
+    seen = 0
+    while stack and seen < 10000:
+        seen += 1
+        o = stack.pop()
+        ch = getattr(o, "children", None)
+        if ch is not None:
+            stack.extend(ch)
+        elif isinstance(o, C.KeyLike):
+            out.add("key")
+        elif isinstance(o, C.IndexLike):
+            out.add("index")
+        elif isinstance(o, C.ValueLike):
+            out.add("value")
+    return out
 
 
 def run_history(instrs, probe_docs):
@@ -179,11 +200,15 @@ def run_history(instrs, probe_docs):
         if res[0] == "ok":
             objs.append(res[1])
             outs.append(("ok", res[1]))
+            if {"key", "index"} <= (kinds_of(a) | kinds_of(b)) and not (a.is_null or b.is_null):
+                c.fail("mixed_kinds", f"combining #{ia} and #{ib} mixes key-kind and index-kind conditions without TypeError")
         else:
             objs.append(None)
             outs.append(("exc", res[1]))
-            if res[1] != "TypeError":
-                c.fail("construction", f"combining raised {res[1]}")
+            # only key-kind mixed with index-kind may be refused (TypeError), judged from the operands' leaves
+            kinds = kinds_of(a) | kinds_of(b)
+            if not (res[1] == "TypeError" and {"key", "index"} <= kinds):
+                c.fail("construction", f"combining #{ia} and #{ib} (leaf kinds {sorted(kinds)}) raised {res[1]}")
         after = snapshot()
         # operands (and every other existing object) are never altered
         for idx, (x, y) in enumerate(zip(before, after[:len(before)])):
@@ -262,6 +287,9 @@ CORPUS_TREES = [
 ]
 
 CORPUS_HISTORIES = [
+    [("leaf", ("leaf", "Value", "gt", [1], {})), ("leaf", ("leaf", "Value", "lt", [10], {})), ("leaf", ("leaf", "KeyLength", "eq", [1], {})),
+     ("leaf", ("leaf", "Index", "lt", [3], {})), ("comb", "and", 0, 1, "operator"), ("comb", "or", 4, 2, "operator"),
+     ("comb", "and", 4, 3, "operator"), ("comb", "xor", 4, 0, "operator")],
     [("leaf", ("leaf", "Value", "gt", [1], {})), ("leaf", ("leaf", "Value", "lt", [4], {})), ("leaf", ("null",)),
      ("comb", "and", 0, 1, "operator"), ("comb", "and", 2, 3, "operator"), ("comb", "and", 3, 2, "class"),
      ("comb", "or", 3, 2, "operator"), ("comb", "and", 3, 0, "operator")],
